@@ -66,3 +66,6 @@ CHECKS["C27"] = ("in-process property-based testing + exhaustive boundary consta
 CHECKS["C16"] = ("property-based testing at two entry points: rapidcheck API harness (exact mpq parser as oracle, ASan/UBSan) and Hypothesis executable round trip through get-value/get-model",
                  "Generated literal spellings (zeros everywhere, huge, junk) must denote their exact rational value through mkConst and through the SMT-LIB front end, print back exactly, or be rejected. Exploration only.",
                  "own exact literal parser; our reader of printed values", "DESIGN.md §4 C16")
+CHECKS["C28"] = ("in-process stateful property-based testing (rapidcheck sequences of constructor calls against a map model of identities)",
+                 "Generated sequences of term constructions with re-construction and permuted commutative arguments; identity, printing injectivity and subterm-before-term order are checked after every sequence. Exploration only.",
+                 "own model of (constructor, arguments) -> identity", "DESIGN.md §4 C28")
